@@ -688,7 +688,8 @@ func runC11(r *report.Report) {
 		explorePart(r, "retained-depth3", params{Mode: "retained", Depth: 3}, 0, "retained-replay")
 		explorePart(r, "retained-reordered", params{Mode: "retained", Depth: 1}, 1, "retained-replay")
 	} else {
-		explorePart(r, "retained-depth4", params{Mode: "retained", Depth: 4, Full: true}, 0, "retained-replay")
-		explorePart(r, "retained-reordered", params{Mode: "retained", Depth: 2}, 1, "retained-replay")
+		explorePart(r, "retained-depth3-full", params{Mode: "retained", Depth: 3, Full: true}, 0, "retained-replay")
+		explorePart(r, "retained-reordered2", params{Mode: "retained", Depth: 1}, 2, "retained-replay")
+		explorePart(r, "retained-depth4", params{Mode: "retained", Depth: 4}, 0, "retained-replay") // the largest part last
 	}
 }
